@@ -10,7 +10,7 @@ import chem                 # noqa: E402
 import pylite_io as P       # noqa: E402
 
 PROP = "C01"
-DEPS = ["Spec/Smiles.v", "Spec/Chem.v", "Spec/Iso.v", "Spec/Graft.v", "Model/Merger.v", "Proofs/SmilesFacts.v", "Gen/Tables.v"]
+DEPS = ["Proofs/LexApp.v", "Proofs/SpliceStr.v", "Proofs/Suffix.v", "Proofs/Embed.v", "Spec/Smiles.v", "Spec/Chem.v", "Spec/Iso.v", "Spec/Graft.v", "Model/Merger.v", "Proofs/SmilesFacts.v", "Gen/Tables.v"]
 
 MODS = ["S", "P", "Ac", "Me", "Bz", "Bn", "Pic", "Pico", "Ole", "Lin", "Pam", "F", "N", "Gc", "Lac", "Pyr", "Fer", "Cin", "Tr", "Fmoc", "Ns", "oNB"]
 
@@ -189,6 +189,8 @@ def run(tier):
             ch = nd["children"]
             if any(c is None for c in ch):
                 continue
+            cov = drv.call("splicestr", nd["me"], *ch)
+            out["thm"] = (out.get("thm", (0, 0))[0] + cov.count("1"), out.get("thm", (0, 0))[1] + len(cov))
             ans = drv.call("mergechildren", nd["me"], *ch).split("\t")
             if ans[0] == "RAISE":
                 if "exc" not in nd:
@@ -214,6 +216,8 @@ def run(tier):
         need = res_names(t)[1:] + [t.name + sfx]
         report.case(txt, t.size() >= 3, {"glycan": txt, "residues": t.size(), "depth": t.depth()} if stats["denotes"] < 5 else None)
         stats["nodes_compared"] += j["nodes"]
+        stats["substitutions"] = stats.get("substitutions", 0) + j.get("thm", (0, 0))[1]
+        stats["substitutions_covered_by_merge_child_is_substitution"] = stats.get("substitutions_covered_by_merge_child_is_substitution", 0) + j.get("thm", (0, 0))[0]
         model_bad.extend(j["bad"])
         v = j["verdict"]
         if v[0] == "noref":
